@@ -75,6 +75,6 @@ def queries(tier):
             qs.append(q(mode, be, 33, klen=0, slen=0, count=2))
             if mode == 4:
                 qs.append(q(mode, be, 32, klen=70, slen=16, count=2))
-    qs.append(q(3, "c64", 33, klen=3, slen=5, count=2, form="I"))
+    qs.append(q(3, "c64", 1, klen=1, slen=1, count=1, form="I"))
     qs.append(q(5, "c64", 9, klen=3, slen=3, form="I"))
     return qs
